@@ -22,6 +22,11 @@ struct AttDesc {
   int nc = 3;
   int mode = 0;  // 0 per-vertex, 1 per-corner with seams, 2 per-face
   int normalized = 0;
+  // Value style of integer attributes: 0 = spread values, 1 = a few distinct
+  // but large values (entropy coders then pick the raw symbol scheme with a
+  // high-precision table even for a handful of points), 2 = about 700 distinct
+  // values with a skewed distribution.
+  int vals = 0;
 };
 
 struct Workload {
